@@ -156,7 +156,7 @@ pub fn run(ctx: &Arc<Ctx>) {
     refmodels::selftest::run(&["sm3", "sm9"]).unwrap_or_else(|e| ctx.machinery_error(format!("reference self-test failed: {}", e)));
     let n = sm9::params().n.clone();
     let nm1 = &n - 1u32;
-    ctx.set_rule("Ha = q(N-1)+r as 40 bytes for q in {0,1,2,3, 2^k-1, 2^k, 2^k+1 (k=8..64 step 8), q_max-2..q_max, seeded} x r in {0,1,2,3,5,2^64,2^128,2^192,N-3,N-2,seeded} plus limb-pattern values (all-ones limbs) through the public mod_n_from_hash; H1 for every identity length 0..=300 x hid {1,2,3} x {zeros, seeded}; H2 over message/w lengths {0,1,55,56,384,1024}; key extraction for master keys {1,2,N-2,Annex ks,Annex ke,seeded} x identities {Alice,Bob,'',300 bytes,seeded} x {sign,enc,exch}; master keys crafted so that H1+k = 0, +1, -1 mod N. Oracle: (Ha mod (N-1))+1 and [k (H1+k)^-1]P by big integers.");
+    ctx.set_rule("Ha = q(N-1)+r as 40 bytes for q in {0,1,2,3, 2^k-1, 2^k, 2^k+1 (k=8..64 step 8), q_max-2..q_max, seeded} x r in {0,1,2,3,5,2^64,2^128,2^192,N-3,N-2,seeded} plus limb-pattern values (all-ones limbs) through the public mod_n_from_hash; H1 for every identity length 0..=300 x hid {1,2,3} x {zeros, seeded}; H2 over message/w lengths {0,1,55,56,384,1024}; key extraction for master keys {1,2,N-2,Annex ks,Annex ke,seeded} x identities {Alice,Bob,'',300 bytes,seeded} x {sign,enc,exch}; master keys crafted so that H1+k = 0, +1, -1 mod N and so that the integer H1+k is 2^256+{-2..2} (carry out of 256 bits) or N+{-2..2}. Oracle: (Ha mod (N-1))+1 and [k (H1+k)^-1]P by big integers.");
     let mut g = SplitMix::new(ctx.seed, "c16");
     let mut cases: Vec<Case> = Vec::new();
     let two320: BigUint = BigUint::one() << 320usize;
@@ -235,6 +235,36 @@ pub fn run(ctx: &Arc<Ctx>) {
             for kind in ["sign", "enc", "exch"] {
                 cases.push(Case::Extract { k: hexbig(k), id: id.into(), kind: kind.into(), tag: format!("k={}", mn) });
             }
+        }
+    }
+    // master keys crafted so that the integer sum H1(ID||hid) + k sits on and next to the carry boundary 2^256 and on
+    // and next to N (the wrap of the modular addition), for every identity whose H1 allows a key in [1, N-1]
+    {
+        let two256: BigUint = BigUint::one() << 256usize;
+        let mut n_carry = 0;
+        for id in ids.iter().chain(["Carol", "Dave", "Erin", "len:5"].iter()) {
+            for kind in ["sign", "enc", "exch"] {
+                let h = sm9::h1(&ident(id, ctx.seed), hid_of(kind));
+                for (bn, bound) in [("2^256", &two256), ("N", &n)] {
+                    for delta in [-2i32, -1, 0, 1, 2] {
+                        let target = if delta < 0 { bound - BigUint::from((-delta) as u32) } else { bound + BigUint::from(delta as u32) };
+                        if target <= h {
+                            continue;
+                        }
+                        let k = &target - &h;
+                        if k >= BigUint::one() && k < n && !(bn == "N" && delta == 0) {
+                            cases.push(Case::Extract { k: hexbig(&k), id: id.to_string(), kind: kind.into(), tag: format!("H1+k={}{:+}", bn, delta) });
+                            if bn == "2^256" {
+                                n_carry += 1;
+                            }
+                        }
+                    }
+                }
+            }
+        }
+        ctx.cov("extract_keys_at_the_2^256_carry_boundary", json!(n_carry));
+        if n_carry == 0 {
+            ctx.machinery_error("no identity allows a master key with H1 + k = 2^256");
         }
     }
     for id in ids {
